@@ -19,7 +19,7 @@ class Group:
     def __init__(self, name, unit, harness, entry=None, enforce=None, replace=(), loop_contracts=False, unwind=None,
                  backend='sat', timeout=600, kind='unbounded', bound=None, clause='', defines=(), checks=None,
                  expect='pass', replay=None, tier='quick', extra=(), canary=True, unwindset=(), object_bits=None,
-                 inputs=(), nondet_static=False, no_standard_checks=False):
+                 inputs=(), nondet_static=False, no_standard_checks=False, unwind_by=None):
         self.name, self.unit, self.harness = name, unit, harness
         self.entry = entry or 'harness'
         self.enforce, self.replace = enforce, list(replace)
@@ -34,6 +34,7 @@ class Group:
         self.unwindset = list(unwindset)
         self.object_bits = object_bits
         self.inputs = list(inputs)
+        self.unwind_by = dict(unwind_by or {})
 
 
 class Result:
@@ -133,6 +134,40 @@ def run_group(g, workdir):
         r.detail = 'goto-cc failed:\n' + out[-3000:]
         return r
     cur = gb
+    if g.loop_contracts:
+        # loops without a contract must be unwound BEFORE dfcc (dfcc's loop write sets reject locals of nested loops)
+        rc, out = sh(['goto-instrument', '--show-loops', '--json-ui', gb], timeout=120)
+        try:
+            loops = [l for item in json.loads(out[out.index('['):]) if isinstance(item, dict) for l in item.get('loops', [])]
+        except Exception:
+            r.detail = 'cannot list loops: ' + out[-500:]
+            return r
+        markers = {}
+        for u in ([g.unit] if g.unit else []):
+            for ln, text in enumerate(open(os.path.join(BUILD, u + '.c')), 1):
+                m = re.search(r'/\*@L:(\w+):(\d+):([CN])\*/', text)
+                if m:
+                    markers[(os.path.join(BUILD, u + '.c'), ln)] = m.groups()
+        uw = []
+        r.contract_loops = []
+        for l in loops:
+            loc = l.get('sourceLocation', {})
+            mk = markers.get((loc.get('file'), int(loc.get('line', 0))))
+            if mk and mk[2] == 'C':
+                r.contract_loops.append(l['name'])
+                continue
+            if l['name'].startswith('__CPROVER') or not loc.get('file'):
+                continue
+            fn = l['name'].rsplit('.', 1)[0]
+            uw.append(f"{l['name']}:{g.unwind_by.get(l['name'], g.unwind_by.get(fn, g.unwind or 1))}")
+        if uw:
+            gb1 = os.path.join(workdir, 'a1.gb')
+            rc, out = sh(['goto-instrument', '--unwindset', ','.join(uw), '--unwinding-assertions', gb, gb1], timeout=600)
+            r.log += out
+            if rc != 0:
+                r.detail = 'goto-instrument --unwindset failed:\n' + out[-2000:]
+                return r
+            gb = gb1
     if g.enforce or g.replace or g.loop_contracts:
         gb2 = os.path.join(workdir, 'b.gb')
         cmd = ['goto-instrument', '--dfcc', g.entry]
@@ -170,8 +205,10 @@ def run_group(g, workdir):
         base += ['--unwind', str(g.unwind), '--unwinding-assertions']
     for u in g.unwindset:
         base += ['--unwindset', u]
-    if g.object_bits:
-        base += ['--object-bits', str(g.object_bits)]
+    if not g.loop_contracts:
+        for k, v in g.unwind_by.items():
+            base += ['--unwindset', f'{k}.0:{v},{k}.1:{v},{k}.2:{v},{k}.3:{v}' if '.' not in k else f'{k}:{v}']
+    base += ['--object-bits', str(g.object_bits or 11)]
     last = None
     for be in backends:
         t1 = time.time()
@@ -197,7 +234,8 @@ def run_group(g, workdir):
         canary = [p for p in failed if 'canary' in (p[1] or '')]
         real = [p for p in failed if 'canary' not in (p[1] or '')]
         if g.canary:
-            have = [p for p in r.props if 'canary' in (p[1] or '')]
+            have = [p for p in r.props if 'canary' in (p[1] or '') and (p[0] or '').startswith(g.entry + '.')]
+            canary = [p for p in canary if (p[0] or '').startswith(g.entry + '.')]
             r.canary_ok = bool(have) and len(canary) == len(have)
         r.failed = real
         r.status = 'fail' if real else 'pass'
